@@ -221,6 +221,10 @@ func deleteChildren(client *dynamicclientset.ResourceClient, parent *unstructure
 type lastUpdate struct {
 	hash               uint64
 	resourcegeneration int64
+	// resourceVersion of the child as returned by our last apply; any later
+	// write by anyone (drifted labels, data of kinds without generation)
+	// changes it and makes us apply again.
+	resourceVersion string
 }
 
 var (
@@ -264,7 +268,8 @@ func updateChildren(client *dynamicclientset.ResourceClient, updateStrategy Chil
 				cacheLock.RLock()
 				if lastUpdated, ok := lastUpdatedCache[lastUpdateCacheName]; ok {
 					cacheLock.RUnlock()
-					if lastUpdated.hash == hash && lastUpdated.resourcegeneration == oldObj.GetGeneration() {
+					if lastUpdated.hash == hash && lastUpdated.resourcegeneration == oldObj.GetGeneration() &&
+						lastUpdated.resourceVersion == oldObj.GetResourceVersion() {
 						logging.Logger.Info("Skipping update, no changes detected", "name", lastUpdateCacheName)
 						continue
 					}
@@ -305,6 +310,7 @@ func updateChildren(client *dynamicclientset.ResourceClient, updateStrategy Chil
 			lastUpdatedCache[lastUpdateCacheName] = &lastUpdate{
 				hash:               hash,
 				resourcegeneration: patched.GetGeneration(),
+				resourceVersion:    patched.GetResourceVersion(),
 			}
 
 			logging.Logger.Info("Cache updated", "name", lastUpdateCacheName)
